@@ -15,7 +15,7 @@
    Oracles are universally quantified function arguments with explicit hypotheses (hash function verdicts
    hok, CBOR header decoder hdrdec). *)
 From GoCar Require Import Bytes Varint Cid Header Frame V2Header Scan Index Store Wf.
-From GoCarProofs Require Import CidFacts HeaderFacts ScanFacts FinalStore FinalMain FinalExamples.
+From GoCarProofs Require Import CidFacts HeaderFacts ScanFacts FinalStore FinalWide FinalMain FinalExamples.
 
 (* The file after Finalize, byte for byte, for every front-end, option row and put history (including none):
    pragma, the 40-byte header with data offset 51 + data padding, data size = payload length, index
@@ -66,37 +66,55 @@ Proof. exact session_stream_v2_refused. Qed.
 Print Assumptions C05_stream_v2_refused.
 
 (* Every successfully finalized file is well-formed and carries exactly the given roots and the stored
-   blocks: the index resolves exactly those sections.  Hypotheses: the roots are CIDs as go-cid produces them
+   blocks: the index resolves exactly those sections -- under ANY options: [apply_wopts] is
+   carv2.ApplyOptions (defaults for zero values; MaxIndexCidSize capped at what an index record can hold,
+   fix C05-cap-max-index-cid-size).  Hypotheses: the roots are CIDs as go-cid produces them
    (for block keys this is not a hypothesis: the stores parse every key and what go-cid parses is canonical,
-   proofs/FinalCid.v), sections LdWrite can frame, MaxIndexCidSize within the index's 32 MiB record-width cap
-   (default 2 KiB),
+   proofs/FinalCid.v), sections LdWrite can frame,
    sizes within Go's int64 file offsets, fewer than 2^31 distinct hash codes for the multihash codec. *)
 Theorem C05_wf :
-  forall (k : skind) (o : wopts) (nilroots : bool) (roots : list bytes) (h : list batch) s outs,
+  forall (k : skind) (o0 : wopts) (nilroots : bool) (roots : list bytes) (h : list batch) s outs,
+  let o := apply_wopts o0 in
   let ro := roots_opt nilroots roots in
   let stored := spec_stored k o ro h in
   session k o nilroots roots h = Ok (s, outs, ONil) ->
   51 + w_dpad o + w_ipad o < two64 -> w_ipad o < two63 ->
-  w_maxcid o + 8 <= max_width ->
   roots_ok roots ->
   Forall (Forall (fun b : block => blen (fst b) + blen (snd b) < 2 ^ 56)) h ->
   blen (ws_file s) < two63 ->
   (w_v1 o = false -> w_codec o = codec_mh_sorted ->
    N.of_nat (length (group_by r_code (ii_load (records_from (ld_size (blen (enc_header ro 1))) stored) []))) < two31) ->
   wf_parse o (ws_file s) = Some (roots, stored) /\ wf_car o (ws_file s) = true.
-Proof. exact c05_wf. Qed.
+Proof. exact c05_wf_applied. Qed.
 Print Assumptions C05_wf.
+
+(* ... because a CID whose digest does not fit an index record (32 MiB wide: digest + 8-byte offset) is never
+   stored, whatever MaxIndexCidSize the caller asked for (before the fix it was stored, Finalize wrote the index
+   and returned nil, and index.ReadFrom refused the file: corpus/C05/wide-digest.case) *)
+Theorem C05_wide_cid_never_stored :
+  forall (o0 : wopts) (ii : iidx) (c : bytes) (p : cidp),
+  cid_parse c = Some p -> max_width < blen (c_digest p) + 8 ->
+  should_put (apply_wopts o0) ii c p <> Ok true.
+Proof. exact wide_cid_never_stored. Qed.
+Print Assumptions C05_wide_cid_never_stored.
+
+(* the decision the check evaluates for CIDs too large to ship as case data is ShouldPut on an empty index *)
+Theorem C05_first_put_decision :
+  forall (o : wopts) (c : bytes) (p : cidp),
+  should_put o [] c p = should_put_first o (blen c) (is_identity p).
+Proof. exact should_put_first_eq. Qed.
+Print Assumptions C05_first_put_decision.
 
 (* The library's own inspection accepts it (with and without block-hash validation, under any reader
    limits the content respects). *)
 Theorem C05_inspect_accepts :
   forall (hok : bytes -> bytes -> option bool) (hdrdec : bytes -> option (list bytes * N))
-         (k : skind) (o : wopts) (nilroots : bool) (roots : list bytes) (h : list batch) s outs
+         (k : skind) (o0 : wopts) (nilroots : bool) (roots : list bytes) (h : list batch) s outs
          (r : ropts) (validate : bool),
+  let o := apply_wopts o0 in
   let ro := roots_opt nilroots roots in
   session k o nilroots roots h = Ok (s, outs, ONil) ->
   51 + w_dpad o + w_ipad o < two64 -> w_ipad o < two63 ->
-  w_maxcid o + 8 <= max_width ->
   Forall (Forall (fun b : block => blen (fst b) + blen (snd b) < 2 ^ 56)) h ->
   blen (ws_file s) < two63 ->
   hdrdec pragma_body = Some ([], 2) -> hdrdec (enc_header ro 1) = Some (roots, 1) ->
@@ -104,18 +122,18 @@ Theorem C05_inspect_accepts :
   Forall (Forall (fun b : block => blen (fst b) + blen (snd b) <= o_maxs r)) h ->
   (validate = true -> Forall (Forall (hash_good hok)) h) ->
   inspect_check hok hdrdec r validate (ws_file s) = Ok tt.
-Proof. exact c05_inspect_accepts. Qed.
+Proof. exact c05_inspect_accepts_applied. Qed.
 Print Assumptions C05_inspect_accepts.
 
 (* The verifier accepts it whenever every root is among the stored blocks -- and there is a root: *)
 Theorem C05_verify_accepts_partial :
   forall (hok : bytes -> bytes -> option bool) (hdrdec : bytes -> option (list bytes * N))
-         (k : skind) (o : wopts) (nilroots : bool) (roots : list bytes) (h : list batch) s outs,
+         (k : skind) (o0 : wopts) (nilroots : bool) (roots : list bytes) (h : list batch) s outs,
+  let o := apply_wopts o0 in
   let ro := roots_opt nilroots roots in
   let stored := spec_stored k o ro h in
   session k o nilroots roots h = Ok (s, outs, ONil) ->
   51 + w_dpad o + w_ipad o < two64 -> w_ipad o < two63 ->
-  w_maxcid o + 8 <= max_width ->
   Forall (Forall (fun b : block => blen (fst b) + blen (snd b) < 2 ^ 56)) h ->
   blen (ws_file s) < two63 ->
   (w_v1 o = false -> w_codec o = codec_mh_sorted ->
@@ -127,7 +145,7 @@ Theorem C05_verify_accepts_partial :
   incl roots (map fst stored) ->
   roots <> [] ->
   verify_check hok hdrdec (ws_file s) = Ok tt.
-Proof. exact c05_verify_accepts_partial. Qed.
+Proof. exact c05_verify_accepts_partial_applied. Qed.
 Print Assumptions C05_verify_accepts_partial.
 
 (* ... the guard [roots <> []] cannot be dropped: VerifyCar refuses every archive without roots
@@ -136,16 +154,16 @@ Print Assumptions C05_verify_accepts_partial.
    (corpus/C05/verify-no-roots.case). *)
 Theorem C05_verify_accepts_refuted :
   exists (k : skind) (o : wopts) (nilroots : bool) (roots : list bytes) (h : list batch) s outs,
-    session k o nilroots roots h = Ok (s, outs, ONil) /\
-    51 + w_dpad o + w_ipad o < two64 /\ w_ipad o < two63 /\ w_maxcid o + 8 <= max_width /\
+    session k (apply_wopts o) nilroots roots h = Ok (s, outs, ONil) /\
+    51 + w_dpad o + w_ipad o < two64 /\ w_ipad o < two63 /\
     Forall (Forall (fun b : block => blen (fst b) + blen (snd b) < 2 ^ 56)) h /\
     blen (ws_file s) < two63 /\
     dec_header_canon pragma_body = Some ([], 2) /\
     dec_header_canon (enc_header (roots_opt nilroots roots) 1) = Some (roots, 1) /\
     Forall (Forall (fun b : block => blen (fst b) + blen (snd b) <= o_maxs default_ropts)) h /\
     Forall (Forall (hash_good ex_hok)) h /\
-    incl roots (map fst (spec_stored k o (roots_opt nilroots roots) h)) /\
-    wf_car o (ws_file s) = true /\
+    incl roots (map fst (spec_stored k (apply_wopts o) (roots_opt nilroots roots) h)) /\
+    wf_car (apply_wopts o) (ws_file s) = true /\
     inspect_check ex_hok dec_header_canon default_ropts true (ws_file s) = Ok tt /\
     verify_check ex_hok dec_header_canon (ws_file s) = Err EOther.
 Proof. exact verify_no_roots_refuted. Qed.
